@@ -59,10 +59,10 @@ Judge(e) ==
                 LET dv == Dev(pat, g.tree, NoDescr) IN
                 IF dv = <<>> THEN <<>> ELSE <<[i |-> c, kind |-> "not-as-documented", as |-> g.as, w |-> dv[1].w, d |-> dv[1].d, o |-> OptStr(e.o), m |-> ""]>>
       IsDec(g) == \E k \in 1..Len(g.as) : g.as[k] \in {"alt.Decompose", "alt.Decompose/ptr", "alt.Decompose+oj.JSON", "pretty.JSON"}
-      Agree(g) == IF g.r # "ok" \/ ref.r # "ok" \/ g.as = ref.as \/ NilEqC(Norm(g.tree, e.o), Norm(ref.tree, e.o)) THEN <<>>
+      Agree(g) == IF g.r # "ok" \/ ref.r # "ok" \/ g.as = ref.as \/ NilEqC(NormP(pat, g.tree, e.o), NormP(pat, ref.tree, e.o)) THEN <<>>
                   ELSE IF PtrRecv(e.tv) \/ (HasMarshaler(e.tv) /\ IsDec(g)) THEN <<>>    \* documented / Go-inherited differences
                   ELSE IF Match(pat, g.tree) # Match(pat, ref.tree) THEN <<>>     \* already explained by the Reference layer
-                  ELSE LET x == Norm(g.tree, e.o)  y == Norm(ref.tree, e.o)
+                  ELSE LET x == NormP(pat, g.tree, e.o)  y == NormP(pat, ref.tree, e.o)
                            df == TreeDiff(x, y)
                            \* as-implemented reading of a time.Time struct field: the oj / sen plans write the RFC 3339 string of
                            \* MarshalJSON, the Decompose family the TimeFormat number, {} under NestEmbed, or (pruned) nothing
